@@ -1,2 +1,405 @@
-//! Harnesses for property C13 (see /verif/properties.jsonl).
+//! Harnesses for property C13 (see /verif/properties.jsonl):
+//! NTS cookies are used once, oldest first, at most eight (the newest) are kept, and each request
+//! asks for exactly as many new cookies as are missing (limited only by packet size).
+use crate::common::*;
 use crate::stubs;
+use ntp_proto::verif::cookiestash::StashH;
+use ntp_proto::verif::source as sh;
+use ntp_proto::*;
+
+// ------------------------------------------------------------------------------------------
+// c13_stash: the ring buffer against a FIFO model.
+//
+// Every cookie ever stored gets a unique 1-byte serial number (its content). The reference model
+// of "FIFO that keeps the newest 8" is then just a window [head, tail) of serial numbers:
+//   store: tail += 1; if the window holds more than 8, the oldest is dropped (head += 1)
+//   get  : returns serial `head` and head += 1, or nothing if the window is empty.
+// "Each cookie at most once" and "oldest first" follow from get returning exactly `head`, which
+// strictly increases.
+fn c13_stash_seq_body<const OPS: usize>() {
+    let read: usize = kani::any();
+    let valid: usize = kani::any();
+    kani::assume(read < MAX_COOKIES && valid <= MAX_COOKIES);
+    let ops: [bool; OPS] = kani::any();
+
+    // arbitrary valid raw state: `valid` cookies with serials 0..valid starting at slot `read`
+    let mut cookies: [Vec<u8>; MAX_COOKIES] = Default::default();
+    let mut i = 0;
+    while i < MAX_COOKIES {
+        if i < valid {
+            cookies[(read + i) % MAX_COOKIES] = vec![i as u8];
+        }
+        i += 1;
+    }
+    let mut stash = StashH::from_raw(cookies, read, valid);
+
+    let mut head: usize = 0;
+    let mut tail: usize = valid;
+    let mut n_get_some = 0usize;
+    let mut n_dropped = 0usize;
+
+    let mut k = 0;
+    while k < OPS {
+        if ops[k] {
+            // store a fresh cookie
+            stash.store(vec![tail as u8]);
+            tail += 1;
+            if tail - head > MAX_COOKIES {
+                head += 1;
+                n_dropped += 1;
+            }
+        } else {
+            let got = stash.get();
+            if head == tail {
+                assert!(got.is_none(), "get on an empty stash returns nothing");
+            } else {
+                match got {
+                    Some(c) => {
+                        assert!(c.len() == 1 && c[0] as usize == head, "get returns the oldest cookie that was not yet handed out");
+                        n_get_some += 1;
+                    }
+                    None => assert!(false, "get on a non-empty stash returns a cookie"),
+                }
+                head += 1;
+            }
+        }
+        assert!(stash.len() == tail - head, "len agrees with the model");
+        assert!(stash.gap() as usize == MAX_COOKIES - (tail - head), "gap = number of missing cookies");
+        k += 1;
+    }
+    kani::cover!(n_dropped >= 1 && n_get_some >= 1, "overflow drops the oldest, then a get");
+    kani::cover!(n_get_some == OPS, "only gets");
+    kani::cover!(valid == 0 && n_get_some >= 1, "store then get from empty");
+}
+
+#[kani::proof]
+#[kani::unwind(10)]
+fn c13_stash_seq4() {
+    c13_stash_seq_body::<4>();
+}
+
+#[kani::proof]
+#[kani::unwind(12)]
+fn c13_stash_seq10() {
+    c13_stash_seq_body::<10>();
+}
+
+// c13_stash_step: ONE operation from an arbitrary valid raw state with arbitrary cookie contents,
+// checked through the full abstraction function (ring window == model queue, position by position).
+// Together with "the empty stash is the empty queue" this is an inductive proof for histories of
+// any length: the queue model never hands out a position twice and always hands out the front.
+#[kani::proof]
+#[kani::unwind(10)]
+fn c13_stash_step() {
+    let read: usize = kani::any();
+    let valid: usize = kani::any();
+    kani::assume(read < MAX_COOKIES && valid <= MAX_COOKIES);
+    let tags: [u8; MAX_COOKIES] = kani::any();
+    let op_store: bool = kani::any();
+    let new_tag: u8 = kani::any();
+    let stale: u8 = kani::any();
+
+    let mut cookies: [Vec<u8>; MAX_COOKIES] = Default::default();
+    let mut i = 0;
+    while i < MAX_COOKIES {
+        // free slots hold an arbitrary stale value or nothing (never observable)
+        cookies[(read + i) % MAX_COOKIES] = if i < valid { vec![tags[i]] } else if stale & 1 == 1 { vec![stale, stale] } else { Vec::new() };
+        i += 1;
+    }
+    let mut stash = StashH::from_raw(cookies, read, valid);
+
+    // model queue: m[0..mlen], oldest first
+    let mut m = [0u8; MAX_COOKIES + 1];
+    let mut mlen = valid;
+    let mut i = 0;
+    while i < MAX_COOKIES {
+        m[i] = tags[i];
+        i += 1;
+    }
+
+    if op_store {
+        stash.store(vec![new_tag]);
+        m[mlen] = new_tag;
+        mlen += 1;
+        if mlen > MAX_COOKIES {
+            // keep the newest eight
+            let mut i = 0;
+            while i < MAX_COOKIES {
+                m[i] = m[i + 1];
+                i += 1;
+            }
+            mlen -= 1;
+        }
+    } else {
+        let got = stash.get();
+        if mlen == 0 {
+            assert!(got.is_none(), "get on an empty stash returns nothing");
+        } else {
+            match got {
+                Some(c) => assert!(c.len() == 1 && c[0] == m[0], "get returns the oldest cookie"),
+                None => assert!(false, "get on a non-empty stash returns a cookie"),
+            }
+            let mut i = 0;
+            while i < MAX_COOKIES {
+                m[i] = m[i + 1];
+                i += 1;
+            }
+            mlen -= 1;
+        }
+    }
+    // abstraction function after the step
+    assert!(stash.read() < MAX_COOKIES && stash.valid() <= MAX_COOKIES, "representation invariant is preserved");
+    assert!(stash.len() == mlen && stash.valid() == mlen, "len agrees with the model");
+    assert!(mlen <= MAX_COOKIES, "at most eight cookies are kept");
+    assert!(stash.gap() as usize == MAX_COOKIES - mlen, "gap = number of missing cookies");
+    assert!(stash.is_empty() == (mlen == 0), "is_empty agrees with the model");
+    let mut i = 0;
+    while i < MAX_COOKIES {
+        if i < mlen {
+            let c = stash.slot((stash.read() + i) % MAX_COOKIES);
+            assert!(c.len() == 1 && c[0] == m[i], "ring window = model queue (same cookies, same order)");
+        }
+        i += 1;
+    }
+    kani::cover!(op_store && valid == MAX_COOKIES && read == 5, "store into a full stash drops the oldest");
+    kani::cover!(!op_store && valid == 3 && read == 7, "get with wrap-around");
+    kani::cover!(!op_store && valid == 0, "get from empty");
+}
+
+#[kani::proof]
+fn c13_stash_init() {
+    let stash = StashH::new();
+    assert!(stash.len() == 0 && stash.gap() as usize == MAX_COOKIES && stash.is_empty(), "a new stash is the empty queue");
+    assert!(stash.read() < MAX_COOKIES && stash.valid() == 0);
+}
+
+// ------------------------------------------------------------------------------------------
+// c13_poll_*: what an NTS poll does with the stash.
+//
+// Oracle (from the property text, independent of the code):
+//   * the request carries exactly one NTS cookie field whose content is the oldest cookie of the
+//     stash, and the stash afterwards no longer holds that cookie (it holds the former 2nd..n-th
+//     cookies in the same order);
+//   * it carries p placeholder fields, each as long as the cookie, where
+//     1 + p = number of cookies the server is asked for = min(missing, fit) with
+//     missing = 8 - (cookies left after taking one) and fit = floor(724 / max(L,1)) (the packet-size
+//     limit the implementation documents: 1024-byte buffer minus 300 bytes of margin);
+//   * cookie and placeholders are in the authenticated part, under the c2s key;
+//   * if that number is 0 (only when L > 724) the source resets instead.
+//
+// c13_poll_struct_*: all stash fill levels; observes the packet STRUCTURE handed to the encoder
+// (`NtpPacket::serialize` replaced by a recorder, see common.rs) because encoding many extension
+// fields symbolically is out of reach. c13_poll_wire_*: the real encoder, stash fill 6..=8 (at most
+// two placeholders), same claims checked on the datagram bytes (RFC 7822/8915 framing).
+
+struct PollCase {
+    valid: usize,
+    l: usize,
+    content: [u8; 32],
+    jc: usize,
+    jp: usize,
+    desired: i8,
+    reach: u8,
+    tries: usize,
+}
+
+fn any_poll_case(valid_lo: usize, lmax: usize) -> PollCase {
+    let c = PollCase {
+        valid: kani::any(),
+        l: kani::any(),
+        content: kani::any(),
+        jc: kani::any(),
+        jp: kani::any(),
+        desired: kani::any(),
+        reach: kani::any(),
+        tries: kani::any(),
+    };
+    kani::assume(c.valid <= MAX_COOKIES && (c.valid == 0 || c.valid >= valid_lo));
+    kani::assume(c.l <= lmax && lmax <= 32);
+    kani::assume(c.jc < 32);
+    kani::assume(c.desired >= 4 && c.desired <= 10);
+    kani::assume(c.tries <= 4);
+    c
+}
+
+/// runs the poll; returns the actions if a request was sent (None after checking the other outcomes)
+fn run_poll(c: &PollCase, v5: bool) -> Option<(NtpSource<RecCtl>, Vec<u8>)> {
+    let mut oldest = c.content.to_vec();
+    oldest.truncate(c.l);
+    let stash = stash0(c.valid, oldest);
+    let nts = sh::nts_data_with_stash(stash, c2s(), s2c());
+    let version = if v5 { ProtocolVersion::V5 } else { ProtocolVersion::V4 };
+    let mut src = new_source(version, SourceConfig::default(), poll(c.desired), Some(nts));
+    sh::set_reach(&mut src, c.reach);
+    sh::set_tries(&mut src, c.tries);
+
+    let (acts, n) = collect_actions(src.handle_timer());
+
+    if c.reach == 0 && c.tries >= 3 {
+        assert!(n == 1 && matches!(acts[0], Some(NtpSourceAction::Reset)), "unreachable source resets");
+        assert!(sh::state(&src).cookies == Some(c.valid), "no cookie is consumed when no request is sent");
+        return None;
+    }
+    if c.valid == 0 {
+        assert!(n == 1 && matches!(acts[0], Some(NtpSourceAction::Reset)), "no cookie left: reset, nothing sent");
+        return None;
+    }
+    assert!(n == 2, "send + timer");
+    assert!(matches!(acts[1], Some(NtpSourceAction::SetTimer(_))), "second action is SetTimer");
+    let mut acts = acts;
+    let p = match acts[0].take() {
+        Some(NtpSourceAction::Send(p)) => p,
+        _ => {
+            assert!(false, "first action is Send");
+            return None;
+        }
+    };
+    // stash afterwards: one fewer, former 2nd.. cookies in order, the used cookie is gone
+    let left = c.valid - 1;
+    assert!(sh::state(&src).cookies == Some(left), "exactly one cookie was consumed");
+    {
+        let nd = sh::nts_mut(&mut src).unwrap();
+        let i: usize = c.jp % MAX_COOKIES; // universally quantified position
+        if i < left {
+            let ck = sh::nts_peek_cookie(nd, i).unwrap();
+            assert!(ck.len() == 2 && ck[0] == 0xC0 && ck[1] as usize == i + 1, "remaining cookies keep their order; the used one is gone");
+        }
+        assert!(sh::nts_peek_cookie(nd, left).is_none());
+    }
+    Some((src, p))
+}
+
+fn asked(c: &PollCase) -> usize {
+    let missing = MAX_COOKIES - (c.valid - 1);
+    let fit = 724 / core::cmp::max(c.l, 1);
+    core::cmp::min(missing, fit)
+}
+
+fn c13_poll_struct_body(v5: bool) {
+    stubs::symbolic_clock();
+    sym_rng();
+    let c = any_poll_case(1, 32);
+    unsafe {
+        REC_JC = c.jc;
+    }
+    let Some((src, _p)) = run_poll(&c, v5) else { return };
+    unsafe {
+        assert!(REC_CALLS == 1, "one request is encoded");
+        assert!(REC_N_COOKIE == 1, "exactly one cookie per request");
+        assert!(REC_COOKIE_LEN == c.l, "the cookie is sent whole");
+        if c.jc < c.l {
+            assert!(REC_COOKIE_BYTE == c.content[c.jc], "cookie sent = oldest cookie of the stash (every byte)");
+        }
+        assert!(1 + REC_N_PH == asked(&c), "asks for exactly as many new cookies as are missing (limited by packet size)");
+        assert!(REC_PH_LEN_MISMATCH == 0, "every placeholder is as long as the cookie and follows it");
+        assert!(REC_N_UID == 1 && REC_UID_LEN == 32, "one 32-byte unique identifier");
+        assert!(REC_N_ENC == 0 && REC_N_UNTRUSTED == 0, "identifier, cookie and placeholders are all in the authenticated part");
+        assert!(REC_HAS_KEY && REC_KEY == C2S_ID, "request authenticated under the c2s key");
+        assert!(REC_N_OTHER == if v5 { 2 } else { 0 }, "nothing else but the NTPv5 draft-id and reference-id request fields");
+        // the pending request identifier is the one put on the wire (C07 starts from such a state)
+        match sh::pending(&src) {
+            Some((_, Some(uid), _)) => assert!(eq_words(&uid, &REC_UID, 32), "pending unique identifier = the one sent"),
+            _ => assert!(false, "an NTS request leaves a pending identifier with a uid"),
+        }
+        kani::cover!(c.valid == 8 && REC_N_PH == 0, "full stash: ask for one");
+        kani::cover!(c.valid == 1 && REC_N_PH == 7, "last cookie: ask for eight");
+        kani::cover!(c.valid == 3 && c.l == 32 && c.content[31] == 0xAA, "cookie content symbolic");
+    }
+}
+
+nharness! {
+    #[kani::unwind(14)]
+    #[kani::stub(ntp_proto::NtpPacket::serialize, crate::common::serialize_recorder)]
+    fn c13_poll_struct_v4() {
+        c13_poll_struct_body(false);
+    }
+}
+
+nharness! {
+    #[kani::unwind(14)]
+    #[kani::stub(ntp_proto::NtpPacket::serialize, crate::common::serialize_recorder)]
+    fn c13_poll_struct_v5() {
+        c13_poll_struct_body(true);
+    }
+}
+
+fn c13_poll_wire_body(v5: bool) {
+    stubs::symbolic_clock();
+    sym_rng();
+    let c = any_poll_case(6, 32);
+    let Some((src, p)) = run_poll(&c, v5) else { return };
+    let l = c.l;
+    let ef_wire = core::cmp::max((l + 3) / 4 * 4 + 4, 16);
+    // walk the extension fields of the request (type, length incl. header, padded to 4)
+    let mut off = 48usize;
+    let mut n_cookie = 0usize;
+    let mut n_placeholder = 0usize;
+    let mut n_uid = 0usize;
+    let mut n_nts = 0usize;
+    let mut guard = 0;
+    while off + 4 <= p.len() && guard < 7 {
+        let ty = be16(&p, off);
+        let len = be16(&p, off + 2);
+        let wire = (len + 3) / 4 * 4;
+        assert!(len >= 4 && off + wire <= p.len(), "well-formed extension field");
+        if !v5 {
+            assert!(len % 4 == 0, "NTPv4 extension field lengths are multiples of 4");
+        }
+        let body = &p[off + 4..off + wire];
+        if ty == 0x0204 {
+            n_cookie += 1;
+            assert!(n_nts == 0, "cookie precedes the authenticator (is authenticated)");
+            assert!(wire == ef_wire, "cookie field: cookie padded to a word, at least 16 bytes");
+            if c.jc < l {
+                assert!(body[c.jc] == c.content[c.jc], "cookie sent = oldest cookie of the stash (every byte)");
+            }
+            if c.jp >= l && c.jp < body.len() {
+                assert!(body[c.jp] == 0, "padding is zero");
+            }
+        } else if ty == 0x0304 {
+            n_placeholder += 1;
+            assert!(n_nts == 0, "placeholder precedes the authenticator");
+            assert!(wire == ef_wire, "placeholder as long as the cookie field");
+            if c.jp < body.len() {
+                assert!(body[c.jp] == 0, "placeholder body is zero");
+            }
+        } else if ty == 0x0104 {
+            n_uid += 1;
+            assert!(off == 48 && len == 36, "unique identifier comes first");
+        } else if ty == 0x0404 {
+            n_nts += 1;
+        }
+        off += wire;
+        guard += 1;
+    }
+    assert!(off == p.len(), "extension fields tile the packet");
+    assert!(n_cookie == 1, "exactly one cookie per request");
+    assert!(n_uid == 1 && n_nts == 1, "unique identifier and authenticator present");
+    assert!(1 + n_placeholder == asked(&c), "asks for exactly as many new cookies as are missing (limited by packet size)");
+    assert!(unsafe { ENC_CALLS == 1 && ENC_KEY == C2S_ID }, "request authenticated under the c2s key");
+    assert!(unsafe { ENC_PT_LEN == 0 }, "nothing is encrypted in a request");
+    let fixed = if v5 { 48 + 36 + 28 + 20 + 40 } else { 48 + 36 + 40 };
+    assert!(p.len() == fixed + asked(&c) * ef_wire, "datagram size = fixed part + one field per requested cookie");
+    match sh::pending(&src) {
+        Some((_, Some(uid), _)) => assert!(eq_words(&uid, &p[52..84], 32), "pending unique identifier = the one on the wire"),
+        _ => assert!(false, "an NTS request leaves a pending identifier with a uid"),
+    }
+    kani::cover!(c.valid == 8 && n_placeholder == 0, "full stash: ask for one");
+    kani::cover!(c.valid == 6 && n_placeholder == 2, "ask for three");
+    kani::cover!(l == 32 && c.content[0] == 0xAA, "cookie content symbolic");
+    kani::cover!(l == 0, "empty cookie");
+}
+
+nharness! {
+    #[kani::unwind(8)]
+    fn c13_poll_wire_v4() {
+        c13_poll_wire_body(false);
+    }
+}
+
+nharness! {
+    #[kani::unwind(8)]
+    fn c13_poll_wire_v5() {
+        c13_poll_wire_body(true);
+    }
+}
